@@ -828,8 +828,8 @@ def build_module(ob, src):
                 op.properties[k] = IntegerAttr(src.int(extra[(idx, op.name)][1], lo, hi), v.type)
             elif k == "alignment" and isinstance(v, IntegerAttr):
                 op.properties[k] = IntegerAttr(src.int(f"align_{op.name.split('.')[-1]}{idx}", 0, 1 << 40), v.type)
-            elif k == "predicate" and op.name in ("arith.cmpi", "arith.cmpf") and ob.get("sym_pred"):
-                op.properties[k] = IntegerAttr(src.int(f"pred{idx}", 0, 9 if op.name == "arith.cmpi" else 15), v.type)
+            elif k == "predicate" and op.name in ("arith.cmpi", "arith.cmpf", "llvm.icmp") and ob.get("sym_pred"):
+                op.properties[k] = IntegerAttr(src.int(f"pred{idx}", 0, 15 if op.name == "arith.cmpf" else 9), v.type)
             elif k == "sym_name" and isinstance(v, StringAttr) and v.data in names:
                 op.properties[k] = StringAttr(names[v.data])
             elif ob.get("sym_enum") and hasattr(type(v), "enum_type") and isinstance(v.data, frozenset):
@@ -853,6 +853,25 @@ def build_module(ob, src):
 # general variants leave these out and a dedicated obligation per entry keeps reporting them
 KNOWN_CLASH = {("*", "operandSegmentSizes"), ("func.func", "sym_name"), ("func.func", "function_type"), ("func.func", "sym_visibility"), ("func.func", "arg_attrs"),
                ("memref.alloc", "alignment"), ("memref.alloca", "alignment"), ("llvm.*", "*")}
+
+
+def toggle_units(m, src):
+    """optional UnitAttr properties (flags such as isExact, inbounds, volatile_, constant): all present / all absent / as written"""
+    from xdsl.dialects.builtin import UnitAttr
+    from xdsl.irdl import OptionalDef
+
+    sel = src.choose("unit_flags", 3)
+    if sel == 0:
+        return
+    for op in list(m.walk()):
+        if not hasattr(type(op), "get_irdl_definition"):
+            continue
+        for name, pdef in type(op).get_irdl_definition().properties.items():
+            if isinstance(pdef, OptionalDef) and pdef.constr.verifies(UnitAttr()) and not pdef.constr.verifies(IntegerAttr(0, 1)):
+                if sel == 1:
+                    op.properties[name] = UnitAttr()
+                else:
+                    op.properties.pop(name, None)
 
 
 def add_discardable(m, src, only=None):
@@ -886,8 +905,10 @@ def harness(ob, concrete=None):
         symstr.SYM_BYTEARRAY[0] = True
         symstr.SYM_DICT[0] = True
         symstr.HAVOC_FLOAT[0] = False
-        src = Src(ex, concrete, FOCUS.get(ob.get('gen') or ob['module'], 0), fixed_ints=bool(ob.get('sym_names') or ob.get('attrs') or ob.get('clash_only')))
+        src = Src(ex, concrete, FOCUS.get(ob.get('gen') or ob['module'], 0), fixed_ints=bool(ob.get('sym_names') or ob.get('attrs') or ob.get('clash_only') or ob.get('units')))
         m = build_module(ob, src)
+        if ob.get("units"):
+            toggle_units(m, Src(ex, concrete))
         if ob.get("attrs"):
             add_discardable(m, Src(ex, concrete))
         if ob.get("clash_only"):
@@ -963,6 +984,9 @@ def obligations(tier):
     obs.append({"id": "C05/cmp1/pred", "module": "cmp1", "sym_pred": True, "sym_enum": True, "weight": 8})
     obs.append({"id": "C05/arith_float/flags", "module": "arith_float", "sym_enum": True, "weight": 8})
     obs.append({"id": "C05/arith_bin/flags", "module": "arith_bin", "sym_enum": True, "weight": 5})
+    for k in ("llvm_arith", "llvm_mem", "llvm_ldst", "llvm_global", "global", "llvm_func"):
+        obs.append({"id": f"C05/{k}/units", "module": k, "units": True, "weight": 4})
+    obs.append({"id": "C05/llvm_arith/flags", "module": "llvm_arith", "sym_enum": True, "sym_pred": True, "weight": 5})
     for g in GENS:
         o = {"id": f"C05/gen/{g}", "gen": g, "weight": 6}
         if g in ("sym", "str"):
